@@ -267,9 +267,27 @@ fn join_accept(idx: u64, rng: &mut Prng, col: &mut Collector) {
             for x in f.iter_mut() {
                 *x = if rng.chance(1, 6) { *rng.pick(&[0u32, 0xFF_FFFF, 8_681_000]) } else { rng.below(1 << 24) as u32 };
             }
+            // structured lists: every entry unused (a list is a list, 16 octets on the air), all but one, all the same
+            match rng.below(12) {
+                0 => f = [0; 5],
+                1 => {
+                    let keep = rng.below(5) as usize;
+                    for (i, x) in f.iter_mut().enumerate() {
+                        if i != keep {
+                            *x = 0;
+                        }
+                    }
+                }
+                2 => f = [f[0]; 5],
+                _ => {}
+            }
             CfDesc::Dynamic(f)
         }
-        _ => CfDesc::Fixed(rng.arr()),
+        _ => CfDesc::Fixed(match rng.below(8) {
+            0 => [0; 9],
+            1 => [0xFF; 9],
+            _ => rng.arr(),
+        }),
     };
     let d = JoinAcceptDesc {
         join_nonce: rng.below(1 << 24) as u32,
